@@ -991,20 +991,17 @@ def gen_deep(rng, tier):
 
 # ------------------------------------------------------------------------------- model evaluation (vm_compute)
 
-COQ_HEADER = """From Coq Require Import ZArith Bool List.
-From ExaV Require Import gen.Gen_ParseShape model.Model_Robust.
-From ExaV Require model.Model_Open.
+COQ_HEADER_BASE = """From Coq Require Import ZArith Bool List.
+From ExaV Require Import gen.Gen_ParseShape model.Model_Robust model.Model_RobustInst.
+From ExaV Require model.Model_Open model.Model_Update.
 Import ListNotations. Open Scope Z_scope.
-(* outcome of Capability.unpack: the capability value decoders of the C07 model *)
-(* host name (73) / software version (75) texts must be valid UTF-8, which Model_Open does not model: a value of these
-   two with a non-ASCII octet is reported as outside the model (99/99) *)
+(* outcome of Capability.unpack: Model_Open.parse_cap (C07).  Host name (73) / software version (75) texts must be valid
+   UTF-8, which Model_Open does not model: a value of these two with a non-ASCII octet is outside the model (99/99) *)
 Definition capv (c : Z) (d : list Z) : option (Z * Z) :=
-  if ((c =? 73) || (c =? 75)) && existsb (fun x => 127 <? x) d then Some (99, 99)
-  else
-  match ExaV.model.Model_Open.parse_cap c d with
-  | ExaV.model.Model_Open.Ok _ => None
-  | ExaV.model.Model_Open.Notify a b => Some (a, b)
-  end.
+  if ((c =? 73) || (c =? 75)) && existsb (fun x => 127 <? x) d then Some (99, 99) else capv_open c d.
+(* Attribute.unpack: Model_Update.unpack_value (C02/C08) and the AIGP walk; the four opaque decoders are outside the model *)
+Definition vdec_h (s : ExaV.model.Model_Update.sess) (aigp_on : bool) : Z -> Z -> list Z -> vres :=
+  vdec_full (fun _ _ => VOther K_UNMODELLED) s aigp_on.
 Definition cls (ty : Z) (o : outcome) : Z * Z * Z :=
   match o with
   | Decoded t => (0, if (ty =? 3) || (ty =? 5) || (ty =? 6) then t else 0, 0)
@@ -1013,10 +1010,20 @@ Definition cls (ty : Z) (o : outcome) : Z * Z * Z :=
   end.
 Definition eq3 (a b : Z * Z * Z) : bool :=
   match a, b with (a1, a2, a3), (b1, b2, b3) => (a1 =? b1) && (a2 =? b2) && (a3 =? b3) end.
-Definition run (c : Z * bool * nat * list Z) : Z * Z * Z :=
-  match c with (ty, ap, limit, body) => cls ty (dec_message vdec_basic capv ap limit ty body) end.
+(* the routes inside MP_REACH / MP_UNREACH are decoded after the walk by the NLRI decoder of their family, which this
+   model does not hold: a body that the model decodes and that carries an accepted MP attribute is not compared *)
+Definition has_mp (vd : Z -> Z -> list Z -> vres) (b : list Z) : bool :=
+  match split b with
+  | SOk _ a _ => match w_out (walk vd a) with WOk seen _ => mem 14 seen || mem 15 seen | _ => false end
+  | SRefused _ _ => false
+  end.
+Definition run (c : (ExaV.model.Model_Update.sess * bool) * Z * bool * nat * list Z) : Z * Z * Z :=
+  match c with (sa, ty, ap, limit, body) =>
+    let vd := vdec_h (fst sa) (snd sa) in
+    let r := cls ty (dec_message vd capv ap limit ty body) in
+    if (ty =? 2) && (fst (fst r) =? 0) && has_mp vd body then (3, 0, 0) else r end.
 (* per case: 0 = same as the implementation, 1 = differs, 2 = outside the modelled value decoders *)
-Definition verdict (ce : (Z * bool * nat * list Z) * (Z * Z * Z)) : Z :=
+Definition verdict (ce : ((ExaV.model.Model_Update.sess * bool) * Z * bool * nat * list Z) * (Z * Z * Z)) : Z :=
   let r := run (fst ce) in
   if fst (fst r) =? 3 then 2 else if eq3 r (snd ce) then 0 else 1.
 Definition unk3 (code : Z) (n : nat) : list Z :=
@@ -1029,6 +1036,22 @@ Definition shape (b : list Z) : Z * Z * Z :=
 """
 
 
+def coq_header():
+    """the base header plus one session definition per negotiated parameter set (taken from the real Negotiated)"""
+    lines = [COQ_HEADER_BASE]
+    for name in CTX_SPEC:
+        c = ctx(name)
+        fams = '; '.join(f'({int(a)}, {int(s)})' for a, s in c.neg.families)
+        from exabgp.protocol.family import AFI, SAFI  # noqa: F401
+
+        aps = '; '.join(f'({int(a)}, {int(s)})' for a, s in c.neg.families if c.neg.required(a, s))
+        ext = '; '.join(f'({int(a)}, {int(s)})' for a, s, _ in c.neg.nexthop)
+        ident = 'sess_' + name.replace('-', '_')
+        lines.append(f'Definition {ident} : ExaV.model.Model_Update.sess * bool := (ExaV.model.Model_Update.mkS '
+                     f'{"true" if c.asn4 else "false"} [{fams}] [{aps}] [{ext}], {"true" if c.neg.aigp else "false"}).')
+    return '\n'.join(lines) + '\n'
+
+
 def impl_class(case, o):
     """the implementation's outcome as the model words it: (class, code|tag, sub)"""
     ty = case['ty']
@@ -1036,6 +1059,8 @@ def impl_class(case, o):
         return (1, o[1], o[2])
     if o[0] == 'X' and o[1] == 'unpack':
         return (2, 0, 0)
+    if o[0] == 'T':
+        return (4, 0, 0)  # a decoder that does not come back agrees with no model outcome
     tag = 0
     if o[0] == 'D' and ty in (3, 5, 6) and ':' in o[1]:
         tag = int(o[1].split(':')[1])
@@ -1073,11 +1098,12 @@ def evaluate_model(run, cases, outs, tag):
             c = cases[i]
             e = impl_class(c, outs[i])
             ap = 'true' if ctx(c['ctx']).addpath else 'false'
-            items.append(f'(({c["ty"]}, {ap}, (Z.to_nat {model_limit(c, None)}), {coq_body(c)}), ({e[0]}, {e[1]}, {e[2]}))')
-        return ('Definition cases : list ((Z * bool * nat * list Z) * (Z * Z * Z)) := [' + ';\n'.join(items)
+            ident = 'sess_' + c['ctx'].replace('-', '_')
+            items.append(f'(({ident}, {c["ty"]}, {ap}, (Z.to_nat {model_limit(c, None)}), {coq_body(c)}), ({e[0]}, {e[1]}, {e[2]}))')
+        return ('Definition cases : list (((ExaV.model.Model_Update.sess * bool) * Z * bool * nat * list Z) * (Z * Z * Z)) := [' + ';\n'.join(items)
                 + '].\nEval vm_compute in (map verdict cases).\n')
 
-    res = common.eval_cases(COQ_HEADER, defs, shards, tag, timeout=900)
+    res = common.eval_cases(coq_header(), defs, shards, tag, timeout=900)
     verdicts = [None] * len(cases)
     logs = []
     ok = True
@@ -1143,7 +1169,7 @@ def shape_correspondence(run, blocks, recursive):
                 pass
         impl.append((p.calls, p.max))
     body = 'Definition blocks : list (list Z) := [' + ';\n'.join(zbytes(b) for b in blocks) + '].\nEval vm_compute in (map shape blocks).\n'
-    rc, out = common.coq_eval_file(COQ_HEADER, body, 'c03_shape', 600)
+    rc, out = common.coq_eval_file(coq_header(), body, 'c03_shape', 600)
     if rc != 0:
         return False, [], out[-1500:]
     parsed = common.parse_eval(out)
@@ -1484,7 +1510,7 @@ def check(tier, seed):
         'every observation starts without the previous-UPDATE attribute cache (history dependence is C19)',
         'wall-clock linearity is measured (best of N on a shared machine), only the step count of the model is proved',
     ]
-    pc = common.standard_build(run, ['T12'])
+    pc = common.standard_build(run, ['T5', 'T10', 'T12'])
     from translate import t12_parse_shape
 
     try:
@@ -1561,7 +1587,7 @@ def check(tier, seed):
 
     # ---- model: outcome class of Model_Robust on the modelled bodies
     t0 = time.time()
-    midx = [i for i, c in enumerate(cases) if c['model'] and (len(c['body']) <= 700 or c.get('shape') == 'unk3')
+    midx = [i for i, c in enumerate(cases) if (c['model'] or c['ty'] == 2) and (len(c['body']) <= 700 or c.get('shape') == 'unk3')
             and not (c.get('shape') == 'unk3' and 700 < c['n'] < 1000)]
     mcap = 4000 if tier == 'quick' else 60000
     if len(midx) > mcap:
